@@ -271,7 +271,11 @@ class C15(core.Check):
         old_str = self.gen.STR
         try:
             if k.random() < 0.35:
-                self.gen.STR = ["tiles/*.tif", "*/location", "a /* b", "c */ d", "roads", "x_y", "first line\nsecond line", "one\n\ntwo"]
+                self.gen.STR = ["tiles/*.tif", "*/location", "a /* b", "c */ d", "roads", "x_y", "İstanbul İİ", "straße ﬁ"]
+                if expand:
+                    # (multi-line values only where directives are expanded: with expand_includes=False a cut could put
+                    # a directive INSIDE such a string, which is outside the quantifier)
+                    self.gen.STR += ["first line\nsecond line", "one\n\ntwo"]
             doc = self.gen.document(w, "map", comments=k.choice([0.0, 0.2]), nl="\n")
         finally:
             self.gen.STR = old_str
